@@ -222,6 +222,9 @@ func (it *intent) elem(n *gen.Node) bool {
 						items = append(items, html.EscapeString(k))
 					}
 				}
+			default:
+				it.Err = "helper" // unsupported value: the helper must report an error
+				return false
 			}
 		}
 		sort.Strings(items)
@@ -320,6 +323,8 @@ func (it *intent) node(n *gen.Node) bool {
 				return false
 			}
 		}
+	case gen.KBlank:
+		it.w("\n") // reading chosen: an indented blank line is an empty text line
 	case gen.KStmt, gen.KRubyComment:
 		// no output
 	case gen.KComment:
